@@ -8,6 +8,8 @@ local branch, `change_to_path_dir`), flag table regenerated into
 import Jap.Core.PathMode
 import Jap.Gen.PathFlags
 import Jap.Lemmas.PathMode
+import Jap.Core.PathModeFS
+import Jap.Lemmas.PathModeFS
 
 namespace Jap.Props.C19
 open Jap.PathMode
@@ -336,5 +338,280 @@ example : (runLoad demo ⟨"/fix/A".toList, none⟩).trace.map (fun r => String.
 example : (runLoad ⟨"c.yaml".toList, [.path "x".toList, .sub "s/d.yaml".toList [.path "y".toList, .fail], .path "z".toList]⟩ ⟨"/fix/A".toList, some "/q".toList⟩)
     = ⟨false, [resolve "c.yaml".toList "/fix/A".toList, resolve "x".toList "/fix/A".toList, resolve "s/d.yaml".toList "/fix/A".toList,
                resolve "y".toList "/fix/A/s".toList], ⟨"/fix/A".toList, some "/q".toList⟩⟩ := by decide
+
+/-! ## the bracket over a file system with symbolic links
+
+`FS D`: any automaton on physical directories (`step d name`: sub-directory, `..`, or a symbolic
+link to a directory, followed); `runItemsF`: the loader with `os.chdir(os.path.abspath(dirname(file)))`
+resolved by the kernel; `specItemsF`: every value belongs to the directory in which the KERNEL finds
+the file that spells it (`trueDir`; for a file that is itself a link: the link's directory). -/
+
+section FSModel
+variable {D : Type} [DecidableEq D]
+
+/-- **C19_fs_cwd_restored**: for EVERY file system and every load program — successful or failing
+at any point, `os.chdir` failures included — the process working directory afterwards is the one
+before; and a load that succeeds restores the context variable `current_path_dir` as well -/
+theorem C19_fs_cwd_restored (fs : FS D) (items : List Item) (s : StF D) :
+    (runItemsF fs items s).st.cwd = s.cwd ∧ ((runItemsF fs items s).ok = true → (runItemsF fs items s).st = s) :=
+  ⟨(runItemsF_spec fs items s).1, (runItemsF_spec fs items s).2.1⟩
+
+/-- **C19_fs_rel_to_cfg (partial)**: when every bracketed file exists, the lexical `abspath` of its
+directory is where the kernel goes anyway (`lexOK`) and list files survive their second resolution
+(`goodItemsF`), the whole state is restored, the load succeeds iff no item fails, and every relative
+path, at any nesting depth, is resolved against the physical directory of the file that spells it -/
+theorem C19_fs_rel_to_cfg_partial (fs : FS D) (items : List Item) (s : StF D) (hg : goodItemsF fs s.cwd items = true) :
+    (runItemsF fs items s).st = s ∧ (runItemsF fs items s).trace <+: specItemsF fs s.cwd items ∧
+    ((runItemsF fs items s).ok = true → (runItemsF fs items s).trace = specItemsF fs s.cwd items) ∧
+    (runItemsF fs items s).ok = noFailItems items :=
+  (runItemsF_spec fs items s).2.2 hg
+
+/-- the hypothesis holds by itself in a file system without directory links (the setting of the
+string model above): there the theorem is the full property for every program whose files exist -/
+theorem C19_fs_rel_to_cfg_tree (fs : FS D) (ht : fs.TreeLike) (items : List Item) (s : StF D)
+    (he : existItemsF fs s.cwd items = true) :
+    (runItemsF fs items s).st = s ∧ (runItemsF fs items s).trace <+: specItemsF fs s.cwd items ∧
+    ((runItemsF fs items s).ok = true → (runItemsF fs items s).trace = specItemsF fs s.cwd items) ∧
+    (runItemsF fs items s).ok = noFailItems items :=
+  C19_fs_rel_to_cfg_partial fs items s (goodItemsF_of_tree fs ht items s.cwd he)
+
+/-- … and, in ANY file system, for every directory string without a `..` component: links on the way
+are harmless, only `link/..` is not -/
+theorem C19_fs_lexOK_noDotDot (fs : FS D) (dir : P) (h : noDotDot dir = true) : lexOK fs dir = true :=
+  lexOK_of_noDotDot fs dir (by simpa [noDotDot] using h)
+
+theorem C19_fs_lexOK_tree (fs : FS D) (ht : fs.TreeLike) (dir : P) (d : D) (h : resolveAbs fs dir = some d) :
+    lexOK fs dir = true ∧ resolveAbs fs (normAbs dir) = some d :=
+  ⟨lexOK_of_tree fs ht dir d h, resolveAbs_normAbs_tree fs ht dir d h⟩
+
+end FSModel
+
+/-- `/w` (working directory), `/o`, `/o/deep`, `/o/deep2`, and the link `/w/link -> /o/deep` -/
+def linkFS : FS Nat :=
+  TableFS.toFS ⟨["/".toList, "/w".toList, "/o".toList, "/o/deep".toList, "/o/deep2".toList],
+    [(0, "w".toList, 1), (0, "o".toList, 2), (2, "deep".toList, 3), (2, "deep2".toList, 4), (1, "link".toList, 3),
+     (0, "..".toList, 0), (1, "..".toList, 0), (2, "..".toList, 0), (3, "..".toList, 2), (4, "..".toList, 2)]⟩
+
+/- Full statement of C19_fs_rel_to_cfg (FALSE of the current code, two witnesses below):
+   theorem C19_fs_rel_to_cfg (fs) (items) (s) (he : existItemsF fs s.cwd items) :
+       (runItemsF fs items s).st = s ∧ ((runItemsF fs items s).ok = true → (runItemsF fs items s).trace = specItemsF fs s.cwd items)
+         ∧ (runItemsF fs items s).ok = noFailItems items -/
+
+/-- **finding C19-abspath-through-link, silent form**: `--cfg link/../x.yaml` from `/w` reads `/o/x.yaml`
+(the kernel follows the link before `..`) but `data.txt` inside it is resolved against `/w`:
+`os.path.abspath` cancelled `link/..` lexically before `os.chdir` -/
+theorem C19_fs_rel_to_cfg_fails_link_dotdot :
+    let prog := [Item.sub "link/../x.yaml".toList [.path "data.txt".toList]]
+    existItemsF linkFS 1 prog = true ∧ noFailItems prog = true ∧
+    (runItemsF linkFS prog ⟨1, none⟩).ok = true ∧
+    (runItemsF linkFS prog ⟨1, none⟩).trace.map (fun r => String.ofList r.abs) = ["/w/link/../x.yaml", "/w/data.txt"] ∧
+    (specItemsF linkFS 1 prog).map (fun r => String.ofList r.abs) = ["/w/link/../x.yaml", "/o/data.txt"] := by decide
+
+/-- **the same finding, loud form**: `--cfg link/../deep2/y.yaml` names the existing `/o/deep2/y.yaml`;
+`os.chdir("/w/deep2")` raises inside `__enter__` — after `current_path_dir.set`, before the `try` —
+so the load fails although nothing in the program does, and the context variable stays set -/
+theorem C19_fs_state_not_restored :
+    let prog := [Item.sub "link/../deep2/y.yaml".toList [.path "data.txt".toList]]
+    existItemsF linkFS 1 prog = true ∧ noFailItems prog = true ∧
+    (runItemsF linkFS prog ⟨1, none⟩).ok = false ∧
+    (runItemsF linkFS prog ⟨1, none⟩).st = ⟨1, some "/w/link/../deep2".toList⟩ := by decide
+
+theorem C19_fs_rel_to_cfg_full_false :
+    ¬ (∀ (fs : FS Nat) (items : List Item) (s : StF Nat), existItemsF fs s.cwd items = true →
+        (runItemsF fs items s).st = s ∧ (runItemsF fs items s).ok = noFailItems items) := by
+  intro h
+  have := h linkFS [Item.sub "link/../deep2/y.yaml".toList [.path "data.txt".toList]] ⟨1, none⟩ (by decide)
+  revert this
+  decide
+
+/-- non-vacuity of the partial theorem in a file system WITH a directory link: the link is used, without `..` after it -/
+example : goodItemsF linkFS 1
+    [.sub "link/m.yaml".toList [.path "w.bin".toList, .sub "../deep2/e.yaml".toList [.path "v.txt".toList]], .path "a.txt".toList] = true ∧
+    (runItemsF linkFS [.sub "link/m.yaml".toList [.path "w.bin".toList, .sub "../deep2/e.yaml".toList [.path "v.txt".toList]], .path "a.txt".toList]
+      ⟨1, none⟩).trace.map (fun r => String.ofList r.abs) =
+    ["/w/link/m.yaml", "/o/deep/w.bin", "/o/deep/../deep2/e.yaml", "/o/deep2/v.txt", "/w/a.txt"] := by decide
+
+/-- the inner leak is repaired by an enclosing bracket: the same failing config one level down leaves no trace in the state -/
+example : (runItemsF linkFS [.sub "/o/x.yaml".toList [.sub "../w/link/../deep2/y.yaml".toList []]] ⟨1, none⟩) = ⟨false, [resolve "/o/x.yaml".toList "/w".toList, resolve "../w/link/../deep2/y.yaml".toList "/o".toList], ⟨1, none⟩⟩ := by decide
+
+/-- **C19_fs_absolute_names_same**: the `absolute` a `Path` stores for a relative spelling given in directory `d`
+is, for the kernel, what the spelling itself named from `d` — and, being absolute, it names that from every
+later working directory: re-resolving a constructed `Path` goes nowhere else -/
+theorem C19_fs_absolute_names_same {D : Type} (fs : FS D) (hl : fs.Lawful) (d : D) (rel : P)
+    (he : isAbs (stripFileScheme rel) = false) :
+    resolveAbs fs (mkPath rel rel (fs.phys d)).absolute = walk fs d (splitSlash (stripFileScheme rel)) := by
+  simp only [mkPath, he, Bool.false_eq_true, ↓reduceIte]
+  exact resolveAbs_join fs hl d _ he
+
+/-- a lawful file system: `/` and `/a` -/
+def twoDirFS : FS Bool :=
+  { root := false,
+    step := fun d s => if s = "a".toList ∧ d = false then some true else if s = "..".toList then some false else none,
+    phys := fun d => if d then "/a".toList else "/".toList }
+
+example : twoDirFS.Lawful ∧ twoDirFS.TreeLike := by
+  refine ⟨?_, by decide, ?_⟩
+  · intro d; cases d <;> decide
+  · intro d s d' h hs
+    cases d <;> simp [twoDirFS] at h ⊢ <;> grind
+
+example : resolveAbs twoDirFS (mkPath "../a/x".toList "../a/x".toList (twoDirFS.phys true)).absolute = none ∧
+    resolveAbs twoDirFS (dirname (mkPath "../a/x".toList "../a/x".toList (twoDirFS.phys true)).absolute) = some true := by decide
+
+/-! ## a `Path` given a `Path` -/
+
+/-- **C19_reresolve_id**: constructing a path from an already constructed `Path` object is the identity on
+`relative`, `absolute`, `cwd` — whatever `cwd=` argument is passed and wherever the process is now — and the
+directory its bracket enters is the one computed at creation -/
+theorem C19_reresolve_id (o : PathObj) (cwdArg : Option P) (osCwd : P) :
+    mkPathArg (.obj o) cwdArg osCwd = o := rfl
+
+/-- a spelling, in contrast, is resolved against `cwd=` when given (and not empty), else against the process -/
+theorem C19_spelling_cwd (path expanded osCwd : P) (c : P) (hc : c ≠ []) :
+    mkPathArg (.spelling path expanded) (some c) osCwd = mkPath path expanded c ∧
+    mkPathArg (.spelling path expanded) none osCwd = mkPath path expanded osCwd ∧
+    mkPathArg (.spelling path expanded) (some []) osCwd = mkPath path expanded osCwd := by
+  simp [mkPathArg, hc]
+
+example : mkPathArg (.obj (mkPath "a.txt".toList "a.txt".toList "/A".toList)) (some "/B".toList) "/C".toList
+    = ⟨"a.txt".toList, "/A/a.txt".toList, "/A".toList⟩ := by decide
+
+/-! ## exact characterisation of the two older open findings -/
+
+section ListFile
+variable {D : Type} [DecidableEq D]
+
+/-- **C19-listfile-reresolved, exactly**: a `List[Path]` value naming an existing line-per-path file in directory
+`d1` (the two `abspath` being harmless) is accepted if and only if the SAME spelling, resolved again from inside
+`d1`, leads to `d1` again -/
+theorem C19_fs_listfile_iff (fs : FS D) (ref : P) (rels : List P) (s : StF D) (d1 : D)
+    (h1 : trueDir fs s.cwd ref = some d1)
+    (hl1 : lexOK fs (dirname (absIn fs s.cwd ref)) = true) (hl2 : lexOK fs (dirname (absIn fs d1 ref)) = true) :
+    (runItemF fs (.listFile ref rels) s).ok = true ↔ trueDir fs d1 ref = some d1 := by
+  unfold trueDir at h1 ⊢
+  simp only [runItemF, h1, enterF_of_lexOK fs _ d1 hl1 h1]
+  by_cases h2 : resolveAbs fs (dirname (absIn fs d1 ref)) = some d1
+  · simp [h2, enterF_of_lexOK fs _ d1 hl2 h2]
+  · simp [h2]
+
+/-- an absolute spelling always is: the second resolution does not look at the directory it starts from -/
+theorem C19_fs_listfile_abs (fs : FS D) (ref : P) (rels : List P) (s : StF D) (d1 : D)
+    (habs : isAbs (stripFileScheme ref) = true) (h1 : trueDir fs s.cwd ref = some d1)
+    (hl : lexOK fs (dirname (absIn fs s.cwd ref)) = true) :
+    (runItemF fs (.listFile ref rels) s).ok = true := by
+  have e : ∀ d, absIn fs d ref = stripFileScheme ref := by intro d; simp [absIn, mkPath, habs]
+  have hl' : lexOK fs (dirname (absIn fs d1 ref)) = true := by rw [e d1, ← e s.cwd]; exact hl
+  refine (C19_fs_listfile_iff fs ref rels s d1 h1 hl hl').mpr ?_
+  unfold trueDir at h1 ⊢
+  rw [e d1, ← e s.cwd]; exact h1
+
+end ListFile
+
+/-- in `linkFS`: from `/o`, `deep/l.txt` is rejected (there is no `/o/deep/deep`), the bare `l.txt` from inside
+`/o/deep` and the absolute spelling are accepted, and so is `../deep/l.txt` from `/o/deep` (a directory part that
+leads back) -/
+example : (runItemF linkFS (.listFile "deep/l.txt".toList ["t".toList]) ⟨2, none⟩).ok = false ∧
+    (runItemF linkFS (.listFile "l.txt".toList ["t".toList]) ⟨3, none⟩).ok = true ∧
+    (runItemF linkFS (.listFile "/o/deep/l.txt".toList ["t".toList]) ⟨2, none⟩).ok = true ∧
+    (runItemF linkFS (.listFile "../deep/l.txt".toList ["t".toList]) ⟨3, none⟩).ok = true := by decide
+
+/-- **C19-default-same-spelling, exactly**: a string given to a path-typed argument is treated as the mode says
+(a `Path` when the file system satisfies the mode here, a rejection otherwise) EXCEPT when it does not satisfy
+the mode and equals the spelling of the argument's default: then the plain string comes back -/
+theorem C19_default_same_spelling_iff (sat : Bool) (v : P) (dflt : Option P) :
+    checkTypePath sat v dflt ≠ (if sat then .path else .reject) ↔ (sat = false ∧ dflt = some v) := by
+  unfold checkTypePath
+  cases sat <;> cases dflt <;> simp
+  rename_i d
+  by_cases h : v = d <;> simp [h, eq_comm]
+
+theorem C19_default_same_spelling_witness :
+    checkTypePath false "data.txt".toList (some "data.txt".toList) = .str ∧
+    checkTypePath false "other.txt".toList (some "data.txt".toList) = .reject ∧
+    checkTypePath true "data.txt".toList (some "data.txt".toList) = .path := by decide
+
+/-! ## ties: the statements the models transcribe, pinned -/
+
+/-- every place of the package that opens the bracket, with the path it brackets and what runs inside:
+`_load_config` (nested `ActionParser` configs = `Item.sub`), `parse_path`, the default-config loop of
+`get_defaults` (`Item.sub` at the head of a program), the two attempts of `_check_type` and the per-element
+bracket of a list file (`Item.listFile`), `parse_value_or_config` reading the file, `relative_path_context`
+(`Item.subObj`); `save` writes next to the file it saves -/
+theorem C19_bracket_sites : Jap.Gen.pathBracketSites = [
+  ("_actions:_ActionConfigLoad._load_config", "change_to_path_dir(cfg_path)", "cfg = parser._apply_actions(cfg, parent_key=self.dest)"),
+  ("_core:ArgumentParser.parse_path", "change_to_path_dir(fpath)", "cfg_str = fpath.get_content() ; parsed_cfg = self.parse_string(cfg_str, os.path.basename(cfg_path), ext_vars, env, default"),
+  ("_core:ArgumentParser.save", "change_to_path_dir(path_fc)", "save_paths(cfg)"),
+  ("_core:ArgumentParser.get_defaults", "change_to_path_dir(default_config_file)", "cfg_file = self._load_config_parser_mode(default_config_file.get_content(), key=key) ; cfg = self.merge_config(cfg_file, cfg) ; try:"),
+  ("_typehints:ActionTypeHint._check_type", "change_to_path_dir(config_path)", "val = adapt_typehints(val, self._typehint, **kwargs)"),
+  ("_typehints:ActionTypeHint._check_type", "change_to_path_dir(config_path)", "val = adapt_typehints(orig_val, self._typehint, default=self.default, **kwargs)"),
+  ("_typehints:adapt_typehints", "change_to_path_dir(list_path)", "val[n] = adapt_typehints(v, subtypehints[0], list_item=True, **adapt_kwargs_n)"),
+  ("_util:parse_value_or_config", "cfg_path.relative_path_context()", "value = load_value(cfg_path.get_content(), simple_types=simple_types)"),
+  ("_util:Path.relative_path_context", "change_to_path_dir(self)", "assert isinstance(path_dir, str) ; yield path_dir")] := rfl
+
+/-- the statements of `Path.__init__` that decide `relative`, `absolute`, `cwd`: a `Path` argument hands over its
+three fields (`mkPathArg (.obj o) = o`), a spelling is expanded, stripped of `file://`, joined to `cwd=` — `None`
+and the empty string meaning `os.getcwd()` — unless absolute (`mkPath`) -/
+theorem C19_init_bookkeeping : Jap.Gen.pathInitBook = [
+  "self._std_io = False",
+  "if isinstance(path, Path)",
+  "self._std_io = path._std_io",
+  "cwd = path.cwd",
+  "abs_path = path.absolute",
+  "path = path.relative",
+  "if isinstance(path, (str, os.PathLike))",
+  "if path == '-'",
+  "self._std_io = True",
+  "path = os.fspath(path)",
+  "cwd = os.fspath(cwd) if cwd else None",
+  "abs_path = os.path.expanduser(path)",
+  "if self._file_scheme.match(abs_path)",
+  "abs_path = self._file_scheme.sub('' if os.name == 'nt' else '/', abs_path)",
+  "is_absolute = is_absolute_path(abs_path)",
+  "abs_path = resolve_relative_path(cwd_url_data.url_path + '/' + path)",
+  "abs_path = cwd_url_data.scheme + abs_path",
+  "if cwd is None",
+  "cwd = current_path_dir.get() or os.getcwd()",
+  "if cwd is None",
+  "cwd = os.getcwd()",
+  "abs_path = abs_path if is_absolute else os.path.join(cwd, abs_path)",
+  "self._relative = path",
+  "self._absolute = abs_path",
+  "self._cwd = cwd"] := rfl
+
+/-- `parse_value_or_config`: a `str` other than "-" is tried as a config path with the configured read mode, read
+inside its own bracket, and the path is handed back for the bracket of the values (`Item.sub`, `Item.listFile`) -/
+theorem C19_value_or_config : Jap.Gen.pathValueOrConfig = [
+  "nested_arg: Union[bool, NestedArg] = False",
+  "if isinstance(value, NestedArg):",
+  "nested_arg = value",
+  "value = nested_arg.val",
+  "cfg_path = None",
+  "if enable_path and type(value) is str and (value != '-'):",
+  "try:",
+  "cfg_path = Path(value, mode=get_config_read_mode())",
+  "pass",
+  "with cfg_path.relative_path_context():",
+  "value = load_value(cfg_path.get_content(), simple_types=simple_types)",
+  "if type(value) is str and value.strip() != '':",
+  "parsed_val = load_value(value, simple_types=simple_types)",
+  "if type(parsed_val) is not str:",
+  "value = parsed_val",
+  "if isinstance(value, dict) and cfg_path is not None:",
+  "value['__path__'] = cfg_path",
+  "if nested_arg:",
+  "value = NestedArg(key=nested_arg.key, val=value)",
+  "return (value, cfg_path)"] := rfl
+
+/-- `_ActionConfigLoad._load_config`: the values of a nested config are applied inside the bracket of its file -/
+theorem C19_load_config : Jap.Gen.pathLoadConfig = [
+  "try:",
+  "cfg, cfg_path = parse_value_or_config(value)",
+  "if not isinstance(cfg, dict):",
+  "raise TypeError(f'Parser key \"{self.dest}\": Unable to load config \"{value}\"')",
+  "with change_to_path_dir(cfg_path):",
+  "cfg = parser._apply_actions(cfg, parent_key=self.dest)",
+  "return cfg",
+  "str_ex = indent_text(f'- {ex}')",
+  "raise TypeError(f'Parser key \"{self.dest}\":\\nUnable to load config {value!r}\\n{str_ex}') from ex"] := rfl
 
 end Jap.Props.C19
